@@ -386,3 +386,31 @@ func runCheckGroups(tier string, seed int64) {
 		checkGroup(spellings(s, false), r.intn(10), "random")
 	}
 }
+
+// runNFKDProbes: strings with their golang.org/x/text NFKD form, for the cross-check of the specification's
+// own NFKD (CPython data) and of its model of x/text's stream-safe behaviour (tool qualification, not a property)
+func runNFKDProbes(seed int64, n int) {
+	r := newRng(seed, "nfkdprobe")
+	for k := 0; k < n; k++ {
+		maybeCut()
+		var s string
+		switch k % 5 {
+		case 0, 1, 2:
+			s = randomUnicode(r, 1+r.intn(30))
+		case 3: // long runs of non-starters, mixed classes
+			var sb strings.Builder
+			sb.WriteString("a")
+			for i := 0; i < 20+r.intn(60); i++ {
+				sb.WriteRune(rune(pools.Marks[r.intn(len(pools.Marks))][0]))
+				if r.intn(25) == 0 {
+					sb.WriteString("b")
+				}
+			}
+			s = sb.String()
+		case 4:
+			w := goldenWords[[]int{3, 5, 6, 7}[r.intn(4)]][r.intn(2048)]
+			s = norm.NFC.String(w) + strings.Repeat("\u0301", r.intn(40)) + strings.Repeat("\u0316", r.intn(3))
+		}
+		emit(Event{"op": "NFKDProbe", "in": units(s), "xtext": units(norm.NFKD.String(s))})
+	}
+}
